@@ -11,8 +11,10 @@ package apd
 //                               alias patterns, inline and heap-resident representations.
 
 import (
+	"bytes"
 	"fmt"
 	"math/big"
+	"math/rand"
 	"testing"
 )
 
@@ -370,6 +372,136 @@ func TestVerifBigIntBridge(t *testing.T) {
 				cases += 5
 			}
 		}
+	}
+	// SetBits adopts the caller's words: a copy, another BigInt's own words, an unnormalised slice, the receiver's own
+	// words and a sub-slice of them, nothing. Rand draws from the same stream as math/big. The encoders and the
+	// fmt.Formatter produce math/big's bytes (nil receivers included).
+	one, wone := mk("1", false), mb("1")
+	for _, zs := range pool {
+		for _, xs := range pool {
+			for rep := 0; rep < 4; rep++ {
+				zh, xh := rep&1 != 0, rep&2 != 0
+				what := fmt.Sprintf("z=%s(heap %v) x=%s(heap %v)", zs, zh, xs, xh)
+				x, wx := mk(xs, xh), mb(xs)
+				z, w := mk(zs, zh), mb(zs)
+				z.SetBits(append([]big.Word(nil), x.Bits()...))
+				w.SetBits(append([]big.Word(nil), wx.Bits()...))
+				check("SetBits(copy) "+what, z, w)
+				z.Add(z, one)
+				w.Add(w, wone)
+				check("SetBits(copy)+1 "+what, z, w)
+				check("SetBits(copy): x "+what, x, wx)
+
+				z, w = mk(zs, zh), mb(zs)
+				z.SetBits(append(append([]big.Word(nil), x.Bits()...), 0, 0))
+				w.SetBits(append(append([]big.Word(nil), wx.Bits()...), 0, 0))
+				check("SetBits(unnormalised) "+what, z, w)
+				z.Sub(z, one)
+				w.Sub(w, wone)
+				check("SetBits(unnormalised)-1 "+what, z, w)
+
+				z, w = mk(zs, zh), mb(zs)
+				z.SetBits(x.Bits())
+				w.SetBits(wx.Bits())
+				check("SetBits(shared) "+what, z, w)
+				check("SetBits(shared): x "+what, x, wx)
+
+				z, w = mk(zs, zh), mb(zs)
+				z.SetBits(nil)
+				w.SetBits(nil)
+				check("SetBits(nil) "+what, z, w)
+				z, w = mk(zs, zh), mb(zs)
+				z.SetBits([]big.Word{0, 0, 0})
+				w.SetBits([]big.Word{0, 0, 0})
+				check("SetBits(zeros) "+what, z, w)
+				z.Sub(z, one)
+				w.Sub(w, wone)
+				check("SetBits(zeros)-1 "+what, z, w)
+				cases += 10
+
+				if xs == pool[0] {
+					z, w = mk(zs, zh), mb(zs)
+					z.SetBits(z.Bits())
+					w.SetBits(w.Bits())
+					check("SetBits(own) "+what, z, w)
+					z.Add(z, one)
+					w.Add(w, wone)
+					check("SetBits(own)+1 "+what, z, w)
+					for _, cut := range [][2]int{{1, -1}, {0, 1}, {1, 1}} {
+						z, w = mk(zs, zh), mb(zs)
+						zb, wb := z.Bits(), w.Bits()
+						lo, hi := cut[0], cut[1]
+						if hi < 0 {
+							hi = len(zb)
+						}
+						if len(zb) != len(wb) || lo > hi || hi > len(zb) {
+							continue
+						}
+						z.SetBits(zb[lo:hi])
+						w.SetBits(wb[lo:hi])
+						check(fmt.Sprintf("SetBits(own[%d:%d]) %s", lo, hi, what), z, w)
+						z.Add(z, x)
+						w.Add(w, wx)
+						check(fmt.Sprintf("SetBits(own[%d:%d])+x %s", lo, hi, what), z, w)
+						z.Mul(z, z)
+						w.Mul(w, w)
+						check(fmt.Sprintf("SetBits(own[%d:%d])+x squared %s", lo, hi, what), z, w)
+						cases += 3
+					}
+					cases += 2
+				}
+
+				for seed := int64(1); seed <= 3; seed++ {
+					z, w = mk(zs, zh), mb(zs)
+					z.Rand(rand.New(rand.NewSource(seed)), x)
+					w.Rand(rand.New(rand.NewSource(seed)), wx)
+					check(fmt.Sprintf("Rand(seed %d) %s", seed, what), z, w)
+					check("Rand: n "+what, x, wx)
+					if wx.Sign() > 0 && (z.Sign() < 0 || z.Cmp(x) >= 0) {
+						t.Fatalf("Rand %s: %s outside [0, n)", what, z)
+					}
+					x2, wx2 := mk(xs, xh), mb(xs)
+					x2.Rand(rand.New(rand.NewSource(seed)), x2)
+					wx2.Rand(rand.New(rand.NewSource(seed)), wx2)
+					check(fmt.Sprintf("Rand(seed %d, z == n) %s", seed, what), x2, wx2)
+					cases += 2
+				}
+			}
+		}
+		for rep := 0; rep < 2; rep++ {
+			z, w := mk(zs, rep == 1), mb(zs)
+			g1, e1 := z.GobEncode()
+			g2, e2 := w.GobEncode()
+			t1, e3 := z.MarshalText()
+			t2, e4 := w.MarshalText()
+			j1, e5 := z.MarshalJSON()
+			j2, e6 := w.MarshalJSON()
+			if !bytes.Equal(g1, g2) || !bytes.Equal(t1, t2) || !bytes.Equal(j1, j2) || e1 != nil || e2 != nil || e3 != nil || e4 != nil || e5 != nil || e6 != nil {
+				t.Fatalf("encoders of %s differ from math/big", zs)
+			}
+			for _, f := range []string{"%d", "%v", "%s", "%x", "%X", "%o", "%O", "%b", "%+d", "% d", "%10d", "%-10d|", "%010d", "%#x", "%#o", "%.5d", "%+.3x", "%12.7d", "%q", "%e", "%c", "%z"} {
+				if a, b := fmt.Sprintf(f, z), fmt.Sprintf(f, w); a != b {
+					t.Fatalf("Sprintf(%q, %s): %q, math/big %q", f, zs, a, b)
+				}
+				cases++
+			}
+			check("after encoding "+zs, z, w)
+			cases += 3
+		}
+	}
+	{
+		var nz *BigInt
+		var nw *big.Int
+		g1, _ := nz.GobEncode()
+		g2, _ := nw.GobEncode()
+		t1, _ := nz.MarshalText()
+		t2, _ := nw.MarshalText()
+		j1, _ := nz.MarshalJSON()
+		j2, _ := nw.MarshalJSON()
+		if !bytes.Equal(g1, g2) || !bytes.Equal(t1, t2) || !bytes.Equal(j1, j2) || fmt.Sprintf("%d|%x|%z", nz, nz, nz) != fmt.Sprintf("%d|%x|%z", nw, nw, nw) {
+			t.Fatalf("encoders/Format of a nil receiver differ from math/big")
+		}
+		cases += 4
 	}
 	fmt.Printf("BOUNDED name=bigint-bridge bound=pool%dx%dx4reps x4alias cases=%d ok\n", len(pool), len(pool), cases)
 }
